@@ -14,8 +14,12 @@ open Prove Difficulty
 counts `(r, sc, ln)`, then: the headers are strictly increasing in number and split into
 `r` reorg + `sc` sampled + `ln` last-N headers; the reorg section lies below the requested start,
 ends at `start - 1` and has `lastN` entries or begins at block 1; a non-empty last-N section ends
-at the parent of the last header; without samples it begins at the requested start; with samples
-no block before it reaches the difficulty boundary. -/
+at the parent of the last header; without samples it begins at the requested start, or — more
+than `lastN` blocks are missing and the server found every requested difficulty inside the last-N
+section — it has exactly `lastN` entries, no block before it reaches the difficulty boundary and
+the first requested difficulty (hence, the difficulties being increasing, every one: see
+`samples_sound_no_sampled`) lies above the parent total difficulty of its first header; with
+samples no block before it reaches the difficulty boundary. -/
 theorem shape_sound (lastN : Nat) (c : ReqContent) (headers : List VH) (last : VH) (r sc ln : Nat)
     (h : checkMatched lastN c headers last = .ok (.ok (r, sc, ln))) :
     headers.length = r + sc + ln ∧
@@ -24,17 +28,24 @@ theorem shape_sound (lastN : Nat) (c : ReqContent) (headers : List VH) (last : V
     (r ≠ 0 → (r = lastN ∨ (headers.head?.map (·.number)) = some 1) ∧
              (headers[r - 1]?.map (·.number)) = some (c.startNumber - 1)) ∧
     (0 < ln → (headers.getLast?.map (fun l => l.number + 1)) = some last.number) ∧
-    (sc = 0 → 0 < ln → (headers[r]?.map (·.number)) = some c.startNumber) ∧
+    (sc = 0 → 0 < ln → (headers[r]?.map (·.number)) = some c.startNumber ∨
+      (lastN < last.number - c.startNumber ∧ ln = lastN ∧
+        ∃ f, headers[r]? = some f ∧ f.ptd < c.boundary ∧ ∀ d ∈ c.difficulties.head?, f.ptd < d)) ∧
     (sc ≠ 0 → ∃ f, headers[r + sc]? = some f ∧ f.ptd < c.boundary) := by
   obtain ⟨hsorted, hr, hreorg, hmid⟩ := checkMatched_inv h
   obtain ⟨hshape, hbound, htail⟩ := cmMid_inv hmid
   obtain ⟨-, -, -, hlast, hstart, -⟩ := cmTail_inv htail
   have hrle : r ≤ headers.length := by rw [hr]; exact length_takeWhile_le' ..
   have hlen := cmShape_sum hshape hrle
-  refine ⟨hlen, sorted_increasing _ hsorted, ?_, hreorg, hlast, hstart, ?_⟩
+  refine ⟨hlen, sorted_increasing _ hsorted, ?_, hreorg, hlast, ?_, ?_⟩
   · intro x hx
     rw [hr, take_length_takeWhile] at hx
     simpa using of_mem_takeWhile _ _ _ hx
+  · intro hsc hln
+    rcases hstart hsc hln with h0 | ⟨f, hf, hns⟩
+    · exact .inl h0
+    · obtain ⟨h1, h2, h3, h4⟩ := checkNoSampled_eq_none.1 hns
+      exact .inr ⟨h1, h2, f, hf, h3, h4⟩
   · intro hsc
     obtain ⟨f, hf, hlt⟩ := hbound hsc
     have : headers.length - ln = r + sc := by omega
@@ -82,6 +93,32 @@ theorem samples_sound (lastN : Nat) (c : ReqContent) (headers : List VH) (last :
         rcases List.mem_cons.1 hd' with rfl | hd'
         · exact hn
         · exact Nat.lt_trans hn ((List.pairwise_cons.1 hprem).1 d hd')
+
+/-- **C01 (no requested sample is skipped when no header is sampled).**  An accepted response
+without sampled headers whose last-N section does not begin at the requested start (the shape the
+server produces when it drops every requested difficulty, see `shape_sound`): with strictly
+increasing requested difficulties, **no** requested difficulty lies at or below the parent total
+difficulty of the first last-N header — every one falls inside the fully checked last-N section,
+none had to be answered by a sampled header. -/
+theorem samples_sound_no_sampled (lastN : Nat) (c : ReqContent) (headers : List VH) (last : VH)
+    (r ln : Nat) (hsorted : StrictlyIncreasing c.difficulties) (hln : 0 < ln)
+    (hstart : (headers[r]?.map (·.number)) ≠ some c.startNumber)
+    (h : checkMatched lastN c headers last = .ok (.ok (r, 0, ln))) :
+    ∃ f, headers[r]? = some f ∧ f.ptd < c.boundary ∧ ∀ d ∈ c.difficulties, f.ptd < d := by
+  obtain ⟨-, -, -, -, -, hshape, -⟩ := shape_sound lastN c headers last r 0 ln h
+  rcases hshape rfl hln with h0 | ⟨-, -, f, hf, hb, hd⟩
+  · exact absurd h0 hstart
+  · refine ⟨f, hf, hb, ?_⟩
+    have hpw : c.difficulties.Pairwise (· < ·) := (strictlyIncreasing_iff_pairwise _).1 hsorted
+    cases hc : c.difficulties with
+    | nil => simp
+    | cons d0 t =>
+      rw [hc] at hd hpw
+      have h0 : f.ptd < d0 := hd d0 (by simp)
+      intro d hd'
+      rcases List.mem_cons.1 hd' with rfl | hd'
+      · exact h0
+      · exact Nat.lt_trans h0 ((List.pairwise_cons.1 hpw).1 d hd')
 
 /-- **C01 (only a verified proof changes the trusted state).**  If handling a
 `SendLastStateProof` changes the trusted state (any peer's proved state or the stored tip), then
@@ -246,5 +283,17 @@ example :
     checkMatched 2 ⟨40, 0, 0, 2, 3850, [150, 450]⟩
       [hd 1 100, hd 4 400, hd 38 3800, hd 39 3900] (hd 40 4000) = .ok (.ok (0, 2, 2)) := by
   rfl
+
+/-- non-vacuity of the shape without sampled headers (`shape_sound`, `samples_sound_no_sampled`):
+start 37, last header 40, last-N `[38, 39]` — three blocks are missing, more than `lastN = 2` —,
+boundary and the requested difficulty inside block 38: accepted with counts `(0, 0, 2)`; a
+requested difficulty that block 37 reaches already (3700) is a skipped sample: 451 -/
+example :
+    let hd (n ptd : Nat) : VH := ⟨n, n, n, n - 1, ptd, n - 1, ⟨0, n, 1000⟩, 0x20028f5c, true, true, true⟩
+    checkMatched 2 ⟨40, 0, 37, 2, 3750, [3720]⟩
+      [hd 38 3700, hd 39 3800] (hd 40 3900) = .ok (.ok (0, 0, 2)) ∧
+    checkMatched 2 ⟨40, 0, 37, 2, 3750, [3700, 3720]⟩
+      [hd 38 3700, hd 39 3800] (hd 40 3900) = .ok (.error 451) :=
+  ⟨by rfl, by rfl⟩
 
 end C01
